@@ -6,6 +6,7 @@
 import ConnectModel.Envelope
 import ConnectModel.Proto
 import ConnectModel.Toy
+import ConnectModel.Duplex
 import ConnectProofs.Lemmas.Envelope
 import ConnectProofs.C01
 
@@ -152,6 +153,95 @@ theorem truncated_stream {Val : Type} (w : WriterCfg Val) (rcfg : ReaderCfg Val)
     simp only [Prog.run, unmarshalFrame, hcut]
   rw [hend] at hrun
   exact ⟨ys, peak, by rw [hrun], hvals⟩
+
+/-! ### at the API: `Err() == nil` after `Receive() == false` needs the terminator -/
+
+/-- the conn reports the clean end only on a success terminator (or because it already had) -/
+theorem receiveStep_eof (s : RState) (c : RState) (h : receiveStep s = (.eof, c)) :
+    (∃ code, s.stored = some (code, true)) ∨ (s.stored = none ∧ ∃ rest, s.items = .endOK :: rest) := by
+  unfold receiveStep at h
+  split at h
+  · rename_i code _; exact Or.inl ⟨code, by assumption⟩
+  · simp at h
+  · split at h <;> simp at h
+    · rename_i rest _; exact Or.inr ⟨by assumption, rest, by assumption⟩
+
+/-- stored clean ends come from a success terminator: an invariant of `receiveStep` -/
+def CleanOnlyAfterEndOK (all : List RItem) (s : RState) : Prop :=
+  (∀ code, s.stored = some (code, true) → RItem.endOK ∈ all) ∧ (∀ x ∈ s.items, x ∈ all)
+
+theorem receiveStep_inv (all : List RItem) (s : RState) (h : CleanOnlyAfterEndOK all s) :
+    CleanOnlyAfterEndOK all (receiveStep s).2 := by
+  obtain ⟨h1, h2⟩ := h
+  unfold receiveStep
+  split
+  · exact ⟨h1, h2⟩
+  · exact ⟨h1, h2⟩
+  · split
+    · refine ⟨?_, h2⟩; intro code hc; simp at hc
+    · rename_i m rest hi
+      exact ⟨h1, fun x hx => h2 x (by rw [hi]; exact List.mem_cons_of_mem _ hx)⟩
+    · rename_i c rest hi
+      refine ⟨?_, fun x hx => h2 x (by rw [hi]; exact List.mem_cons_of_mem _ hx)⟩
+      intro code hc; simp at hc
+    · rename_i rest hi
+      refine ⟨fun _ _ => h2 _ (by rw [hi]; simp), fun x hx => h2 x (by rw [hi]; exact List.mem_cons_of_mem _ hx)⟩
+    · rename_i c rest hi
+      refine ⟨?_, fun x hx => h2 x (by rw [hi]; exact List.mem_cons_of_mem _ hx)⟩
+      intro code hc; simp at hc
+
+/-- the wrapper's invariant: a recorded clean end means the success terminator was in the body -/
+def WrapperInv (all : List RItem) (s : SState) : Prop :=
+  CleanOnlyAfterEndOK all s.conn ∧ (∀ code, s.receiveErr = some (code, true) → RItem.endOK ∈ all)
+
+theorem sstep_inv (all : List RItem) (s : SState) (op : SOp) (h : WrapperInv all s) : WrapperInv all (sstep s op).2 := by
+  obtain ⟨hc, hr⟩ := h
+  cases op with
+  | err => exact ⟨hc, hr⟩
+  | close => exact ⟨hc, hr⟩
+  | receive =>
+    simp only [sstep]
+    split
+    · exact ⟨hc, hr⟩
+    · have hinv := receiveStep_inv all s.conn hc
+      rcases hstep : receiveStep s.conn with ⟨cls, c⟩
+      rw [hstep] at hinv
+      cases cls with
+      | msg m => exact ⟨hinv, by simpa using hr⟩
+      | fail code => exact ⟨hinv, by intro code' h'; simp at h'⟩
+      | eof =>
+        refine ⟨hinv, ?_⟩
+        intro _ _
+        rcases receiveStep_eof s.conn c hstep with ⟨code, hs⟩ | ⟨_, rest, hi⟩
+        · exact hc.1 code hs
+        · exact hc.2 _ (by rw [hi]; simp)
+
+theorem srun_inv (all : List RItem) : ∀ (ops : List SOp) (s : SState), WrapperInv all s → WrapperInv all (srun s ops).2
+  | [], s, h => by simpa [srun] using h
+  | op :: rest, s, h => by
+    simp only [srun]
+    exact srun_inv all rest _ (sstep_inv all s op h)
+
+/-- **api_success_needs_terminator**: on a `ServerStreamForClient`, after any sequence of
+    `Receive`, `Err` and `Close` calls: if `Receive` has returned false and `Err()` is nil - the
+    caller's picture of a call that ended well - then the body contained the protocol's success
+    terminator. No sequence of calls (asking again, closing first) turns a stream that was cut or
+    failed into one that ended cleanly. -/
+theorem api_success_needs_terminator (items : List RItem) (ops : List SOp)
+    (hfalse : (sstep (srun (SState.start items) ops).2 .receive).1 = .recv none)
+    (hnil : (sstep (srun (SState.start items) ops).2 .err).1 = .err none)
+    (hdone : (srun (SState.start items) ops).2.receiveErr.isSome = true) :
+    RItem.endOK ∈ items := by
+  have hinv : WrapperInv items (srun (SState.start items) ops).2 :=
+    srun_inv items ops _ ⟨⟨by intro code h; simp [SState.start] at h, by intro x hx; simpa [SState.start] using hx⟩,
+      by intro code h; simp [SState.start] at h⟩
+  cases hr : (srun (SState.start items) ops).2.receiveErr with
+  | none => simp [hr] at hdone
+  | some e =>
+    obtain ⟨code, eof⟩ := e
+    cases eof with
+    | true => exact hinv.2 code hr
+    | false => simp [sstep, hr] at hnil
 
 /-! non-vacuity: a two-message stream cut inside the second payload, and inside the prefix -/
 example : ((envRead 0).run takeExact { flat := [0,0,0,0,3,1,2], tail := .eof }).1.outcome
